@@ -77,7 +77,8 @@ func doMerge(files []transformer.ModuleFile, schema string) (out mergeOutcome) {
 			out = mergeOutcome{Panic: fmt.Sprint(r)}
 		}
 		for i := range before {
-			if i >= len(files) || before[i] != files[i] {
+			// field by field: the struct may grow fields that are not comparable
+			if i >= len(files) || before[i].Name != files[i].Name || before[i].Contents != files[i].Contents {
 				out.Mutated = true
 			}
 		}
@@ -462,7 +463,21 @@ func (c *mergeCtx) check0(cfg simrt.Config) ([]mismatch, simrt.Stats, string) {
 					}
 				}
 			}
-			o = doMerge(deliver(wl, wl.Order), wl.Schema)
+			files := deliver(wl, wl.Order)
+			if wl.ReuseList {
+				// the caller keeps ONE list: it merged an earlier version of the
+				// files (three more lines at the top of each), then replaced the
+				// contents in place
+				for i := range files {
+					files[i].Contents = "# draft\n\n\n" + files[i].Contents
+				}
+				doMerge(files, wl.Schema)
+				for i, f := range deliver(wl, wl.Order) {
+					files[i].Contents = f.Contents
+				}
+				simrt.CountFault("history.list_reused")
+			}
+			o = doMerge(files, wl.Schema)
 		}})
 		st := simrt.End()
 		evalC07(&o, wl.Order)
@@ -675,6 +690,7 @@ func mergeRunOne(b *BatchResult, prop string, seed, run uint64, nRandom int) {
 		w2.Cold = i == 0
 		w2.Warm = r.intn(4)
 		w2.Scribble = r.chance(50)
+		w2.ReuseList = r.chance(40)
 		c2 := &mergeCtx{wl: &w2, exp: c.exp, canon: c.canon}
 		s := fam[r.intn(len(fam))]
 		mm, st, _ := c2.check(s.cfg)
